@@ -5,6 +5,21 @@ ROOT = os.path.dirname(os.path.dirname(os.path.abspath(__file__)))
 
 # id -> (engine, category, technique, level text, level note, design ref)
 CHECKS = {
+ "C17": ("vh-parsers", "exploration",
+         "proptest generator family (empty, 1-3 chars, exact length +-2 around each parser's fixed offsets, very long, odd / non-hex, non-UTF-8, boundary numbers, structured edits of really-written files) against every untrusted-input parser under catch_unwind with overflow checks on, round trips where a formatter exists, small exhaustive enumerations (all u16 ports, all text lengths <= 400, all <= 2-byte record values), and (thorough) coverage-guided libFuzzer targets per parser family",
+         "No panic / overflow and parse(format(v)) == v held on ~0.54 M (quick) to several million (thorough) generated and enumerated inputs per run for hex addresses, data-map chunks, wallet key files, port ranges, amounts, multiaddresses, bootstrap cache files, node registry files and record bytes; 13 seeded parser weakenings are each caught in the quick tier. Exploration: inputs are sampled, the named finite sub-spaces are enumerated completely.",
+         "Accept/reject decisions are not judged except canonical port spellings; libp2p / serde / rmp trusted for their decisions (their panics would still be reported); the ant-cli wallet module is compiled into the harness by #[path] since it lives in a binary crate.",
+         "DESIGN.md §3 C17"),
+ "C19": ("vh-mgmt", "fault_enumeration",
+         "stateful proptest of the real add_node / ServiceManager (start, stop, remove, upgrade) over an in-memory FakeOS implementing ServiceControl and RpcActions with generated operation sequences and injected call failures (incl. 'start succeeded but no process'), plus exhaustive enumeration of every single-fault placement (quick) and every fault pair (thorough) over a fixed 200-sequence catalogue; registry-vs-FakeOS-truth oracle after every operation",
+         "Fault enumeration: for generated sequences with 0-2 injected failures and, exhaustively, for every single and every pair of fault placements over the catalogue, the recorded status matches the process table (Running => live process with that pid, Ok stop/remove => no process and no pid, Removed is final, a failed op never newly records Running), names / data dirs / ports never collide, and save->load is the identity. Known findings excluded by signature.",
+         "FakeOS is the trusted base (the real OS service manager and RPC client are below the seam); the cmd/node.rs glue is replicated by hand in both the CLI and the daemon style; crash staleness is exempt until the next effective Ok operation on that service.",
+         "DESIGN.md §3 C19"),
+ "C20": ("vh-mgmt", "exploration",
+         "proptest differential: generated combinations of every installable option -> real add_node over FakeOS captures the install ServiceInstallCtx, real ServiceManager::upgrade captures the re-install ctx; both argument lists are fed to the real antnode binary (built with the option-dump hook) and the parsed-option dumps are compared with each other and with the intended configuration; thorough adds all 2^14 presence patterns of the optional options",
+         "Generated option combinations (custom EVM, ports, IPs, peers arguments, log settings, owner, home-network/UPnP, user mode, environment, paths with spaces): install and upgrade definitions agree in program, user, label, working dir and (flag,value) multiset, the real antnode accepts both and interprets them identically and as intended. Held-on-N-cases assurance; five seeded flag regressions are caught in the quick tier.",
+         "Nothing below the ServiceControl seam (unit-file quoting) is tested; generators respect antctl's own clap rules; requested port 65535 is left to C17; the hooked antnode is built into harness/target-antnode by the check itself.",
+         "DESIGN.md §3 C20"),
  "C14": ("vh-client", "exploration",
          "proptest over lengths around every size-class boundary x contents x fetch completion orders; real autonomi self-encryption + Client::data_get / data_get_public over a hand-stepped client driver answering from an in-memory chunk map; same binary also built with MAX_CHUNK_SIZE=1024 (child process) to reach 1-3 additional data-map levels; round-trip / size / SHA3 address / determinism oracle",
          "Generated round trips through the real client fetch path in two builds: returned bytes equal the input for every boundary length and multi-level data map, every chunk is addressed by the independent SHA3-256 of its content and bounded by MAX_CHUNK_SIZE (known dependency finding excluded by signature), encryption is deterministic, inputs < 3 bytes are rejected. Held-on-N-cases assurance.",
